@@ -1,4 +1,5 @@
 import EchoModel.RouterWire
+import EchoModel.RouterSpec
 /-!
 # C01 — what a dispatched handler sees (router.go Find + context.go ParamValues)
 
@@ -9,11 +10,19 @@ outcome of `Router.find` on the tree built by `Router.build`.
 namespace C01
 open Wire Router
 
-/-- line: `table method path pvlen` → outcome of L3 `find` -/
+def encSpec : Spec.Outcome → List String
+  | .dispatch e vals => ["D", toString e.hid, encStr e.ppath] ++ encStrs e.pnames ++ encStrs vals
+  | .notFound => ["N"]
+  | .methodNotAllowed allow => ["M"] ++ encStrs (sortStrs allow)
+
+/-- line: `table method path pvlen` → outcome of the radix-tree model (L3 `find ∘ build`), then
+    `//`, then the outcome of the order-free reference search (L1) the theorems are about: the
+    real router is compared with both on every case -/
 def runLine (line : String) : String :=
   match parseLine (do let t ← pTable; let m ← str; let p ← str; let n ← nat; pure (t, m, p, n)) line with
   | none => "bad-op"
   | some (t, m, p, n) =>
-    render (encOutcome (find (build t) m p (List.replicate (max n (maxParam t)) [])))
+    render (encOutcome (find (build t) m p (List.replicate (max n (maxParam t)) []))
+      ++ ["//"] ++ encSpec (Spec.routeTable t m p))
 
 end C01
